@@ -18,6 +18,14 @@ CHECKS = {
     technique="explicit enumeration of operation sequences x inputs on the real code (E1), differential against a plain-Python reference model at every step",
     text="Every depth-1 program over integer and boolean secrets (all operators, three operand-kind combinations incl. every reflected method, boolean combinations) on all input vectors of D(2), D(3) and boundary lattices for 4/8/16 bits, plus depth-2 compositions on D(2): the value returned by every API call equals the reference model's (plain int arithmetic) or the call raises; inside the narrowest reading of the documented domain a raise is a violation.",
     note="Reference model pv/ops.py (Python int semantics); integer ~ is excluded from the equality oracle (documented n-bit complement); boolean-typed operand combinations that the API does not offer at all are skipped and listed in the evidence."),
+ "C02": dict(cat="model_checking", design="3/C02, 2.3",
+    technique="exhaustive enumeration of the adversarial prover's witness space per gadget instance (exact enumeration in the real field, cross-validated against brute force in small fields)",
+    text="For every value-returning program (all operators x secret/secret, secret/const, const/secret, unary, selection, boolean combinations, 7 depth-2 compositions) and every operand vector of D(n) on which the honest run completes, the operands are pinned and ALL satisfying assignments of the variables the call introduced are enumerated in the real scalar field (bn128 and a second field; bitlength 2-3 quick, 2-4 x three fields thorough). Every result wire must take the honest value in every solution and must not depend on a free variable. The enumerating engine is validated on every run: on the same systems traced over small primes its solution sets must equal those of plain brute force over F_p.",
+    note="Alarm only with a concrete real-field witness re-verified against all recorded constraints. Soundness for bitlengths above 4 is extrapolated (gadgets are uniform in the bitlength). Two genuine defects are listed as known findings with discriminating predicates."),
+ "C03": dict(cat="model_checking", design="3/C03, 2.3",
+    technique="exhaustive enumeration of witness spaces (exact real-field engine) over all operand vectors of a bounded domain, compared with the run-time check and the documented relation",
+    text="For every assertion/declaration kind (six comparisons x 4 operand-kind combinations, zero/nonzero/positive, explicit widths 1..n+1 for assert_positive and to_bits, range, boolean declarations through four constructors, PackIntMod.unpack) and every operand vector of D(n): satisfiable (all witness choices enumerated; on the system of an unchecked run and on the system of an accepted run re-pinned to the vector) must equal accepted-by-the-checked-call, accepted implies the documented relation, and relation-within-width implies accepted.",
+    note="Real fields only (small fields wrap around the value domain and are not used for verdicts). Relies on pv.witness.exact, which C02 cross-validates against brute force on every run."),
 }
 
 NOT_YET = {}
